@@ -95,6 +95,9 @@ def main():
         case, allops, obs, orc = run_case(hdr, ops, rng, crash)
         for key, what, stepno in orc.viol:
             key = c14_key(key, orc)
+            if key.split(':')[0] not in ('head', 'reader'):
+                run.count('c13-category:' + key)          # overwrite / budget: reported by the C13 check
+                continue
             if key not in seen_keys:
                 seen_keys[key] = 0
                 small = shrink(case, [v[0] for v in orc.viol if c14_key(v[0], orc) == key][0], 150)
